@@ -31,6 +31,7 @@ class HarnessError(Exception):
 
 
 RUN_DIGESTS = []  # digests of the runs executed by this (worker) process since it was last cleared
+RUN_CLOCKS = []  # (clock reads, jumps fired, simulated seconds covered) of the same runs
 
 
 def scratch_base():
@@ -350,6 +351,13 @@ def run(w, world_files, opts, host=None, faults=None, crash_at=None, dump=False,
     res["reports"] = reports
     res["digest"] = digest(res, w)
     RUN_DIGESTS.append(res["digest"])
+    ck = (res.get("child") or {}).get("clock") or {}
+    reads = ck.get("reads", 0)
+    span = reads * host.get("tick_ns", 1_000_000)
+    for at, d in host.get("jumps") or []:
+        if at <= reads:
+            span += abs(d)
+    RUN_CLOCKS.append((reads, ck.get("jumps", 0), span / 1e9))
     shutil.rmtree(rundir, ignore_errors=True)
     return res
 
